@@ -314,9 +314,11 @@ func c20Once(c *core.Ctx, r *core.Reporter) {
 	}
 	// one resolver invocation
 	var calls []ssa.CallInstruction
-	for _, ci := range core.CallSites(rpf) {
-		if core.UserCallback(ci) == "FieldResolveFn" {
-			calls = append(calls, ci)
+	for _, g := range c.Region(rpf) { // the function or the phases it has been split into
+		for _, ci := range core.CallSites(g) {
+			if core.UserCallback(ci) == "FieldResolveFn" {
+				calls = append(calls, ci)
+			}
 		}
 	}
 	if len(calls) != 1 {
@@ -336,7 +338,7 @@ func c20Alias(c *core.Ctx, r *core.Reporter) {
 		return
 	}
 	found := false
-	core.Instrs(fn, func(in ssa.Instruction) {
+	c.RegionInstrs(fn, func(in ssa.Instruction) {
 		mu, ok := in.(*ssa.MapUpdate)
 		if !ok {
 			return
@@ -358,7 +360,7 @@ func c20Alias(c *core.Ctx, r *core.Reporter) {
 	if !found {
 		// either deep-copied or no static path at all
 		ok := false
-		core.Instrs(fn, func(in ssa.Instruction) {
+		c.RegionInstrs(fn, func(in ssa.Instruction) {
 			if u, isU := in.(*ssa.UnOp); isU {
 				if f := core.FieldOf(u.X); f != nil && core.N(f) == "static" {
 					ok = true
